@@ -29,6 +29,15 @@ SEEDS = {
  "S24-stride-serde-untagged": ("C16 (round 2)", "#[serde(untagged)] on enum Stride", "the unit variants Empty and Zero serialise identically: a container holding exactly [0] (every fresh consecutive-pairs region) deserialises as empty"),
  "S25-indexlist-clear-keeps-smol": ("C08 (round 2)", "IndexList::clear clears `smol` only when `chonk` is empty", "a list that held small offsets AND offsets above u32::MAX, then clear: the u32 prefix survives"),
  "S26-indexopt-reserve-allocates": ("C19 (round 2)", "IndexOptimized::reserve guard `!self.is_empty()` instead of `!self.spilled.is_empty()`", "reserve / extend on a non-empty, purely strided container allocates the spill vector: capacity becomes non-zero while used stays 0"),
+ "S27-owned-empty-push-index": ("C01 (round 3)", "Push<&[T]> for OwnedRegion returns the index (0, 0) for an empty slice instead of (len, len)", "only in compositions that interpret the offsets: ConsecutiveIndexPairs<OwnedRegion/StringRegion> (dense-pairs assertion in dev, wrong item in release) when an empty value follows a non-empty one"),
+ "S28-cip-index-uses-last-index": ("C12 (round 3; two cooperating edits)", "ConsecutiveIndexPairs::index takes the end offset of the newest item from the cached last_index; clone_from no longer copies last_index", "clone_from into a used region, then reading the last index before any further push: wrong length or slice-range panic"),
+ "S29-readsliceinner-overcopy": ("C20 (round 3; the same change was delivered for C13)", "Push<ReadSliceInner> copies `skip(start).take(end)` instead of `take(end - start)`", "a region-backed read item that is neither first nor last in its source region: elements of the following items are copied too"),
+ "S30-readslice-partial-cmp-tiebreak": ("C15 (round 3)", "ReadSlice::partial_cmp rewritten with a swapped length tie-break", "strict-prefix pairs (incl. empty vs non-empty) compare reversed under partial_cmp / < while cmp and == stay right"),
+ "S31-cip-clone-from-plus-clear": ("C18 (round 3; two cooperating edits)", "ConsecutiveIndexPairs::clone_from drops last_index; clear only clears `inner` when last_index > 0", "clone_from into a fresh region followed by clear: all payload stays accounted in heap_size"),
+ "S32-columns-clone-from-narrower": ("C09 (round 3)", "hand-written ColumnsRegion::clone_from reusing the destination's columns with the zip the wrong way round", "clone_from into a destination with FEWER columns than the source: a source column is dropped, later ones shift"),
+ "S33-columns-merge-index-oob": ("C10 (round 3)", "ColumnsRegion::merge_regions indexes `r.inner[col]` for every non-empty source", "merging sources with different non-zero column counts whose column type consumes its sources (OwnedRegion, StringRegion): index out of bounds"),
+ "S34-collapse-take-last-index": ("C11 (round 3)", "CollapseSequence::push tests `self.last_index.take()`", "runs of three or more equal items: every other equal push is stored again"),
+ "S35-flatstack-clear-plus-is-empty": ("C08 (round 3; two cooperating edits)", "FlatStack::clear returns early when indices.is_empty(); IndexOptimized::is_empty looks at the stride only", "FlatStack<MirrorRegion<usize>, IndexOptimized> whose history starts with a non-zero value: clear is a no-op"),
 }
 results = {}
 # later files / lines override earlier ones for the same (seed, check): checks were strengthened between passes
